@@ -82,7 +82,9 @@ class BcryptSHA256Hasher(PasswordHasher):
         salt: bytes | None = None,
     ) -> str:
         salt = salt or bcrypt.gensalt(rounds=self._rounds, prefix=self.prefixes[0])
-        prepared_secret = self._prepare_secret(secret, salt=salt.rsplit(b"$")[-1])
+        # bcrypt reads 22 salt characters: key the pre-hash with exactly those (the same ones the record will carry),
+        # also when the caller hands over a longer string, e.g. a whole bcrypt hash
+        prepared_secret = self._prepare_secret(secret, salt=salt.rsplit(b"$")[-1][:22])
         hash = as_str(bcrypt.hashpw(prepared_secret, salt))
         info = inspect_bcrypt_hash(hash)
         if not info:
